@@ -39,8 +39,16 @@ def check(pid, tier, replay=None):
     consts, n_beh = cfg(tier)
     dev = {"DEV_EchoOnlyOnDebit": DEV["DEV_EchoOnlyOnDebit"]}
     consts.update(dev)
+    # second slice: a smaller configuration whose whole labelled state graph goes to the runner, which builds a
+    # signature-pair cover (which branch served the request x how amount and balance compare x did the balance move)
+    small = dict(consts, Balances=mags([0, 5, P53 + 3]), Amounts=mags([0, 1, 5, 6, P63 - 1]), MaxSteps=2 if tier == "quick" else 3,
+                 EmitOneIn=1)
+    if tier != "quick":
+        small.update(Balances=mags([0, 5]), Amounts=mags([0, 5, 6, P63 - 1]), ActionSet=S("debit", "refund", "check"))
+    slices = [dict(name="sample", consts=consts, n_beh=n_beh),
+              dict(name="graph", consts=small, n_beh=200 if tier == "quick" else 4000, graph=True)]
     return pipe.standard_check(
-        pid, tier, family="abmf", base_module="AbmfMC", consts=consts, invariants=["InvClauses"], n_beh=n_beh,
+        pid, tier, family="abmf", base_module="AbmfMC", consts=consts, invariants=["InvClauses"], n_beh=n_beh, slices=slices,
         to_behaviour=to_behaviour, harness_mode="abmf", trace_module="AbmfTrace",
         trace_consts={k: core.tla_bool(v) for k, v in dev.items()}, clauses=None, replay=replay,
         assumptions=["fake in-memory MongoDB stands in for mongod", "harness Diameter client (go-diameter) trusted",
